@@ -13,10 +13,10 @@
                  orbits flattened in order); FALSE: GCMAlgorithmFast (grouper)   *)
 EXTENDS Naturals, Sequences, FiniteSets, TLC
 
-CONSTANTS N, MaxDeg, StubCap, Configs, PinnedLen2
+CONSTANTS N, MaxDeg, StubCap, Configs, PinnedLen2, MaxCalls
 
-VARIABLES cfg, jds, stubs, phase, kk, parts, mj, left, calls, edgeCol, topCol, midCol, nextId
-vars == <<cfg, jds, stubs, phase, kk, parts, mj, left, calls, edgeCol, topCol, midCol, nextId>>
+VARIABLES cfg, jds, stubs, phase, kk, parts, mj, left, calls, edgeCol, topCol, midCol, nextId, ncalls
+vars == <<cfg, jds, stubs, phase, kk, parts, mj, left, calls, edgeCol, topCol, midCol, nextId, ncalls>>
 
 V == 0..(N - 1)
 K == Len(cfg.sizes)
@@ -47,7 +47,7 @@ Init ==
     /\ stubs = [k \in 1..Len(cfg.sizes) |-> StubList(jds, k)]
     /\ phase = "shuffle" /\ kk = 1
     /\ parts = <<>> /\ mj = 1 /\ left = 0
-    /\ calls = <<>> /\ edgeCol = <<>> /\ topCol = <<>> /\ midCol = <<>> /\ nextId = 0
+    /\ calls = <<>> /\ edgeCol = <<>> /\ topCol = <<>> /\ midCol = <<>> /\ nextId = 0 /\ ncalls = 1
 
 (* random.shuffle(k_list): any permutation, one column at a time *)
 Shuffle ==
@@ -55,7 +55,7 @@ Shuffle ==
     /\ \E p \in Permutations(1..Len(stubs[kk])) :
           stubs' = [stubs EXCEPT ![kk] = [i \in 1..Len(stubs[kk]) |-> stubs[kk][p[i]]]]
     /\ kk' = kk + 1
-    /\ UNCHANGED <<cfg, jds, phase, parts, mj, left, calls, edgeCol, topCol, midCol, nextId>>
+    /\ UNCHANGED <<cfg, jds, phase, parts, mj, left, calls, edgeCol, topCol, midCol, nextId, ncalls>>
 
 MotifCount(m) == Len(stubs[cfg.motifs[m].orbits[1]]) \div cfg.sizes[cfg.motifs[m].orbits[1]]
 
@@ -63,7 +63,7 @@ Partition ==
     /\ phase = "shuffle" /\ kk > K
     /\ parts' = [k \in 1..K |-> Chunks(stubs[k], cfg.sizes[k])]
     /\ phase' = "emit" /\ mj' = 1 /\ left' = MotifCount(1)
-    /\ UNCHANGED <<cfg, jds, stubs, kk, calls, edgeCol, topCol, midCol, nextId>>
+    /\ UNCHANGED <<cfg, jds, stubs, kk, calls, edgeCol, topCol, midCol, nextId, ncalls>>
 
 Apply(shape, verts) == [i \in DOMAIN shape |-> <<verts[shape[i][1]], verts[shape[i][2]]>>]
 NameOf(m, i) == <<m, IF cfg.custom THEN i ELSE 0>>        \* fast: one name per topology
@@ -107,9 +107,20 @@ Emit ==
                /\ calls' = Append(calls, [m |-> mj, verts |-> verts, ret |-> es])
                /\ IF PinnedLen2 /\ cfg.custom THEN Extend_PinnedLen2(mj, es, mo.bare) ELSE Extend(mj, es)
                /\ left' = left - 1 /\ mj' = mj /\ phase' = phase
-    /\ UNCHANGED <<cfg, jds, stubs, kk>>
+    /\ UNCHANGED <<cfg, jds, stubs, kk, ncalls>>
 
-Next == Shuffle \/ Partition \/ Emit
+(* history: the same generator object is asked for another graph; nothing of the previous call survives
+   (fresh stub lists, fresh id counter, fresh columns) *)
+GenerateAgain ==
+    /\ phase = "done" /\ ncalls < MaxCalls
+    /\ jds' \in [1..N -> [1..Len(cfg.sizes) -> 0..MaxDeg]]
+    /\ Consistent(cfg, jds') /\ OrbitsAgree(cfg, jds')
+    /\ stubs' = [k \in 1..Len(cfg.sizes) |-> StubList(jds', k)]
+    /\ phase' = "shuffle" /\ kk' = 1 /\ parts' = <<>> /\ mj' = 1 /\ left' = 0
+    /\ calls' = <<>> /\ edgeCol' = <<>> /\ topCol' = <<>> /\ midCol' = <<>> /\ nextId' = 0 /\ ncalls' = ncalls + 1
+    /\ UNCHANGED cfg
+
+Next == Shuffle \/ Partition \/ Emit \/ GenerateAgain
 Spec == Init /\ [][Next]_vars
 
 (* ------------------------------ properties ------------------------------ *)
